@@ -18,7 +18,7 @@ Definition TU64 := TPrim (PInt U64).
 
 Record hdr := { h_type_hash : N; h_align_hash : N; h_name : list byte }.
 
-Definition header_w (h : hdr) : W :=
+Definition header_w (h : hdr) : Wr :=
   wfield N_MAGIC TU64 (wev (EWrite (le_bytes 8 MAGIC))) ;;
   wfield N_VERSION_MAJOR TU16 (wev (EWrite (le_bytes 2 VERSION_MAJOR))) ;;
   wfield N_VERSION_MINOR TU16 (wev (EWrite (le_bytes 2 VERSION_MINOR))) ;;
